@@ -10,7 +10,7 @@
    is what the correspondence stage compares bit for bit with CPython. *)
 From Coq Require Import List ZArith Bool QArith Qcanon.
 From Coq Require Import Reals.
-From RxVerif Require Import Math.Exact Math.ExactProofs Math.FloatModel Math.C12Corr Math.SumErrorProofs Math.MeanErrorProofs Math.MinMaxFloatProofs Math.FloatOpsProofs Math.VarianceFloatProofs Math.VarianceNonnegProofs.
+From RxVerif Require Import Math.Exact Math.ExactProofs Math.FloatModel Math.C12Corr Math.SumErrorProofs Math.SumRunningProofs Math.MeanErrorProofs Math.MinMaxFloatProofs Math.FloatOpsProofs Math.VarianceFloatProofs Math.VarianceNonnegProofs.
 Import ListNotations.
 Open Scope Qc_scope.
 
@@ -142,6 +142,18 @@ Theorem C12_float_sum_error_bound : forall (h : hints) (l : list Coq.Floats.Prim
                 <= ((1 + u53) ^ length l - 1) * sumR (map (fun x => Rabs (FR x)) l))%R.
 Proof. exact float_sum_error. Qed.
 Print Assumptions C12_float_sum_error_bound.
+
+(* the same bound for EVERY streaming value of sum: the running sum after the i-th item against the first i items *)
+Theorem C12_float_sum_running_error_bound : forall (h : hints) (l : list Coq.Floats.PrimFloat.float),
+  Forall (fun x => Coq.Floats.PrimFloat.is_finite x = true) l ->
+  Forall (fun x => Coq.Floats.PrimFloat.is_finite x = true) (scan_states Coq.Floats.PrimFloat.add Coq.Floats.PrimFloat.zero l) ->
+  Forall2 (fun (v : num) (i : nat) =>
+             exists s, v = NF s
+               /\ (Rabs (FR s - sumR (map FR (firstn i l)))
+                   <= ((1 + u53) ^ i - 1) * sumR (map (fun x => Rabs (FR x)) (firstn i l)))%R)
+          (sum_run (FA h) false (map NF l)) (seq 1 (length l)).
+Proof. exact float_sum_running_error. Qed.
+Print Assumptions C12_float_sum_running_error_bound.
 
 (* (e') the same for `mean`: one more rounding for the division by the count (exact as a float below 2^53); the
         quotient may be subnormal, hence the absolute term eta64 = 2^-1075:
